@@ -79,6 +79,81 @@ var c28Variants = []struct{ name, class string }{
 	{"code-sig-for-other-id", "bad-signature"},
 	{"code-sig-for-other-timestamp", "bad-signature"},
 	{"code-sig-for-other-origin", "bad-signature"},
+	// the timestamp alphabet: a VALID signature over (origin, id, timestamp) for timestamps at and
+	// far beyond the edges of the window. Relative ones: 1 s beyond the past edge, 30 s inside it,
+	// 1 s inside the future edge, 30 s beyond it (the real clock only moves forward during a case, so
+	// the first and third keep their class for ever, the other two for 30 s: see c28Obs.Stalled).
+	{"valid-sig-301s-old", "outside-window"},
+	{"valid-270s-old", "valid"},
+	{"valid-299s-ahead", "valid"},
+	{"valid-sig-330s-ahead", "outside-window"},
+	// absolute ones: the epoch, the 32-bit edge, the edges of int64 seconds and of uint64, the
+	// seconds whose nanosecond count no longer fits int64 (time.Duration), and instants around
+	// 292.47 years from now, the largest distance a time.Duration can express
+	{"valid-sig-ts-0", "far-timestamp"},
+	{"valid-sig-ts-1", "far-timestamp"},
+	{"valid-sig-ts-2^31", "far-timestamp"},
+	{"valid-sig-ts-9223372035", "far-timestamp"},
+	{"valid-sig-ts-9223372036", "far-timestamp"},
+	{"valid-sig-ts-9223372037", "far-timestamp"},
+	{"valid-sig-292y-ahead", "far-timestamp"},
+	{"valid-sig-293y-ahead", "far-timestamp"},
+	{"valid-sig-ts-2^40", "far-timestamp"},
+	{"valid-sig-ts-2^62", "far-timestamp"},
+	{"valid-sig-ts-2^63-1", "far-timestamp"},
+	{"valid-sig-ts-2^63", "far-timestamp"},
+	{"valid-sig-ts-max-uint64", "far-timestamp"},
+}
+
+// c28Timestamp is the timestamp of a variant (now = the real clock in Unix seconds when the
+// command is built); ok is false for variants that are stamped with now itself.
+func c28Timestamp(variant string, now uint64) (ts uint64, ok bool) {
+	const year = 365 * 24 * 3600
+	switch variant {
+	case "valid-sig-6min-old":
+		return now - 360, true
+	case "valid-sig-6min-ahead":
+		return now + 360, true
+	case "valid-4min-old":
+		return now - 240, true
+	case "valid-4min-ahead":
+		return now + 240, true
+	case "valid-sig-301s-old":
+		return now - 301, true
+	case "valid-270s-old":
+		return now - 270, true
+	case "valid-299s-ahead":
+		return now + 299, true
+	case "valid-sig-330s-ahead":
+		return now + 330, true
+	case "valid-sig-ts-0":
+		return 0, true
+	case "valid-sig-ts-1":
+		return 1, true
+	case "valid-sig-ts-2^31":
+		return 1 << 31, true
+	case "valid-sig-ts-9223372035":
+		return 9223372035, true
+	case "valid-sig-ts-9223372036":
+		return 9223372036, true
+	case "valid-sig-ts-9223372037":
+		return 9223372037, true
+	case "valid-sig-292y-ahead":
+		return now + 292*year, true
+	case "valid-sig-293y-ahead":
+		return now + 293*year, true
+	case "valid-sig-ts-2^40":
+		return 1 << 40, true
+	case "valid-sig-ts-2^62":
+		return 1 << 62, true
+	case "valid-sig-ts-2^63-1":
+		return 1<<63 - 1, true
+	case "valid-sig-ts-2^63":
+		return 1 << 63, true
+	case "valid-sig-ts-max-uint64":
+		return 1<<64 - 1, true
+	}
+	return now, false
 }
 
 func c28Class(v string) string {
@@ -138,6 +213,9 @@ type c28Obs struct {
 	Forwarded     int // command frames written to any neighbour while the command was processed
 	OnConnect     int // command frames written to a neighbour that connected afterwards
 	Err           string
+	// Stalled: more than 20 s of real time passed between building the command and the end of the
+	// case, so a timestamp 30 s from an edge of the window may have changed sides: not judged.
+	Stalled bool
 }
 
 func c28IsCmdFrame(t uint8) bool {
@@ -160,20 +238,14 @@ func c28Build(c c28Case, ids []identity.AgentID, signPriv, otherPriv ed25519.Pri
 		return nil, fmt.Errorf("origin %q", c.Origin)
 	}
 	now := uint64(time.Now().Unix())
-	ts := now
-	switch c.Variant {
-	case "valid-sig-6min-old":
-		ts = now - 360
-	case "valid-sig-6min-ahead":
-		ts = now + 360
-	case "valid-4min-old":
-		ts = now - 240
-	case "valid-4min-ahead":
-		ts = now + 240
-	}
+	ts, stamped := c28Timestamp(c.Variant, now)
 	var sig [protocol.SignatureSize]byte
+	switch {
+	case stamped: // every variant with a timestamp of its own carries a valid signature over it
+		copy(sig[:], ed25519.Sign(signPriv, c28Signable(origin, c.ID, ts)))
+	}
 	switch c.Variant {
-	case "valid-fresh", "valid-sig-6min-old", "valid-sig-6min-ahead", "valid-4min-old", "valid-4min-ahead":
+	case "valid-fresh":
 		copy(sig[:], ed25519.Sign(signPriv, c28Signable(origin, c.ID, ts)))
 	case "unsigned":
 	case "random-signature":
@@ -202,7 +274,9 @@ func c28Build(c c28Case, ids []identity.AgentID, signPriv, otherPriv ed25519.Pri
 	case "code-sig-for-other-origin":
 		copy(sig[:], ed25519.Sign(signPriv, (&protocol.SleepCommand{OriginAgent: nsID(6), CommandID: c.ID, Timestamp: ts}).SignableBytes()))
 	default:
-		return nil, fmt.Errorf("variant %q", c.Variant)
+		if !stamped {
+			return nil, fmt.Errorf("variant %q", c.Variant)
+		}
 	}
 	var seenBy []identity.AgentID
 	if c.SeenBy >= 1 {
@@ -291,6 +365,8 @@ func c28Run(c c28Case) (obs c28Obs) {
 	// (for a sleeping agent this is the state inside a poll window: peers reconnected)
 	link(1)
 	link(2)
+	built := time.Now()
+	defer func() { obs.Stalled = time.Since(built) > 20*time.Second }()
 	frame, err := c28Build(c, net.ids, signPriv, otherPriv)
 	if err != nil {
 		obs.Err = err.Error()
@@ -330,6 +406,10 @@ func c28Run(c c28Case) (obs c28Obs) {
 func c28Judge(r *vmc.Result, c c28Case, o c28Obs) {
 	if o.Err != "" {
 		r.HarnessError("C28 case %s: %s", c, o.Err)
+		return
+	}
+	if o.Stalled {
+		r.NotExhaustive(fmt.Sprintf("case %s took more than 20 s of real time: not judged", c))
 		return
 	}
 	class := c28Class(c.Variant)
@@ -377,6 +457,17 @@ func TestVerif_C28(t *testing.T) {
 	r.Assume("processFrame handles a sleep/wake/queued-state frame synchronously (state and emitted frames are read after it returns)")
 	r.Assume("timestamps are offsets of 0, +-4 min, +-6 min from the real clock against the 5 min window; a case takes far less than a minute")
 	r.Assume("a sleep and a wake command sign the same bytes (origin, id, timestamp): a signature valid for one kind is valid for the other -- counted as validly signed, as the statement does")
+	var rh c28History
+	if r.ReplayInto(&rh) && rh.History {
+		o := c28HistRun(rh)
+		fmt.Printf("C28 replay %s: states %v, %d command frames written\n", rh, o.States, len(o.Sent))
+		c28HistJudge(r, rh, o)
+		r.Add("evaluations", 1)
+		if err := r.Finish(); err != nil {
+			t.Fatal(err)
+		}
+		return
+	}
 	var rp c28Case
 	if r.ReplayInto(&rp) {
 		o := c28Run(rp)
@@ -451,6 +542,7 @@ func TestVerif_C28(t *testing.T) {
 	if validEffect == 0 {
 		r.HarnessError("C28: no validly signed command had any effect -- the harness does not reach the handlers")
 	}
+	c28Histories(r)
 	if err := r.Finish(); err != nil {
 		t.Fatal(err)
 	}
